@@ -463,7 +463,7 @@ func c10ClientRun(c c10ClientCase) Verdict {
 					extInj, _ = client.Extension("XINJECTED")
 					callErr = client.SendMail(from, to, strings.NewReader(body))
 					client.Quit()
-				client.Close()
+					client.Close()
 				}
 			case "sendmail":
 				callErr = smtp.SendMail(addr, nil, from, to, strings.NewReader(body))
